@@ -174,16 +174,21 @@ int sim_socket(int domain, int type, int protocol) {
   sock_open++; logf_("socket() = %d", fd_out);
   return fd_out;
 }
+static long long connect_delay_us; /* an agent too busy to accept: connect() itself takes this long */
 int sim_connect(int fd, const struct sockaddr *addr, socklen_t len) {
   step("connect"); (void)fd; (void)addr; (void)len;
+  now_us += connect_delay_us;
   if (connect_errno) { errno = connect_errno; logf_("connect() = -1 errno=%d", errno); return -1; }
-  logf_("connect() = 0"); maybe_trigger();
+  logf_("connect() = 0%s", connect_delay_us ? " (after a long wait in the listen queue)" : ""); maybe_trigger();
   return 0;
 }
+/* the module's view of the wall clock is the simulated clock */
+time_t sim_time(time_t *t) { time_t v = (time_t)(1700000000LL + now_us / 1000000); if (t) *t = v; return v; }
 int sim_close(int fd) { step("close"); (void)fd; sock_closed++; logf_("close()"); return 0; }
 
 int sim_select(int nfds, fd_set *r, fd_set *w, fd_set *e, struct timeval *tv) {
   step("select"); nselects++; (void)nfds; (void)e;
+  if (tv && (tv->tv_sec < 0 || tv->tv_usec < 0 || tv->tv_usec >= 1000000)) { errno = EINVAL; logf_("select() = -1 EINVAL (timeout %ld s %ld us)", (long)tv->tv_sec, (long)tv->tv_usec); return -1; }
   long long to = tv ? (long long)tv->tv_sec * 1000000 + tv->tv_usec : -1;
   if (eintr_budget > 0 && chance("select-eintr", 1, 12)) { eintr_budget--; errno = EINTR; now_us += 1000; logf_("select() = -1 EINTR"); return -1; }
   if (w) {
@@ -352,6 +357,8 @@ static void run_call(int callno) {
   fault_free = choose("fault-class", 3) == 0;
   socket_errno = connect_errno = 0;
   if (!fault_free && chance("socket-fails", 1, 20)) socket_errno = EMFILE;
+  connect_delay_us = 0;
+  if (!fault_free && chance("connect-slow", 1, 8)) connect_delay_us = (long long)(1 + choose("connect-wait-s", 12)) * 1000000;
   if (!fault_free && chance("connect-fails", 1, 8)) connect_errno = (int[]){ECONNREFUSED, ENOENT, EACCES, EAGAIN}[choose("connect-errno", 4)];
   /* reply text */
   static const char *texts[] = {"OK", "OK successfully authenticated", "NO", "NO wrong credentials", "", "O", "OKAY", "ok", "NOK", "KO", " OK", "\0OK", "NO OK", "XX"};
@@ -428,7 +435,7 @@ static void run_call(int callno) {
   if (module_allocs != module_frees) fail("memory/leak", "the module allocated %ld strings (strdup / conversation reply) and freed %ld", module_allocs, module_frees);
   if (sock_open != sock_closed) fail("socket/leaked", "%d sockets opened, %d closed", sock_open, sock_closed);
   /* bounded time: every select either times out (and the module gives up) or makes progress */
-  long long bound = (long long)timeout_s * 1000000 * (nfrags + 8 + 4 /*eintr*/ ) + 1000000;
+  long long bound = (long long)timeout_s * 1000000 * (nfrags + 8 + 4 /*eintr*/ ) + 1000000 + connect_delay_us;
   if (now_us > bound) fail("time/unbounded", "simulated time %lld ms exceeds the bound %lld ms implied by timeout=%ds", now_us / 1000, bound / 1000, timeout_s);
 }
 
